@@ -272,7 +272,12 @@ func c20Round(c *c20Case, dir string) error {
 					targets = append(targets, id)
 				default:
 					// store verification while writes are going on
-					msg, err := wnc.Request("admin.storeVerify", nil, verifyTimeout)
+					// ... one in three with repair (admin.storeMaint): two walks at once, and a repair racing the writers
+					subj := "admin.storeVerify"
+					if wr.Intn(3) == 0 {
+						subj = "admin.storeMaint"
+					}
+					msg, err := wnc.Request(subj, nil, verifyTimeout)
 					if err != nil {
 						atomic.AddInt32(&unanswered, 1)
 						return
